@@ -57,3 +57,103 @@ package fasthttp
 //@   loop 1:
 //@     invariant[digits] 0 <= i && i <= maxHexIntChars
 //@     invariant[value]  0 <= n && n < pow16(i)
+
+// ---- date and IP codecs (C31) ----
+
+//@ func parse2Digits results v ok
+//@   property C31
+//@   pure
+//@   ensures[accepts-digits] ok == (isdigit(a) && isdigit(b))
+//@   ensures[value] ok ==> v == (a - 48) * 10 + (b - 48)
+//@   ensures[reject] !ok ==> v == 0
+
+//@ func parse4Digits results v ok
+//@   property C31
+//@   pure
+//@   ensures[accepts-digits] ok == (isdigit(a) && isdigit(b) && isdigit(c) && isdigit(d))
+//@   ensures[value] ok ==> v == (a - 48) * 1000 + (b - 48) * 100 + (c - 48) * 10 + (d - 48)
+
+//@ spec lc(c int) int = (65 <= c && c <= 90) ? c + 32 : c
+//@ spec is3(a int, b int, c int, x int, y int, z int) bool = lc(a) == x && lc(b) == y && lc(c) == z && isalpha(a) && isalpha(b) && isalpha(c)
+
+// isWeekday3 / parseMonth3 use the `| 0x20` folding trick: it must accept exactly the upper/lower-case variants of
+// the three letters, and nothing else (bytes such as '@' | 0x20 == '`' must not slip through).
+//@ func isWeekday3 results r
+//@   property C31
+//@   pure
+//@   ensures[exactly-weekdays] r == (is3(a,b,c,'m','o','n') || is3(a,b,c,'t','u','e') || is3(a,b,c,'w','e','d') || is3(a,b,c,'t','h','u') ||
+//@                               is3(a,b,c,'f','r','i') || is3(a,b,c,'s','a','t') || is3(a,b,c,'s','u','n'))
+
+//@ func parseMonth3 results m ok
+//@   property C31
+//@   pure
+//@   ensures[jan] is3(a,b,c,'j','a','n') ==> ok && m == 1
+//@   ensures[feb] is3(a,b,c,'f','e','b') ==> ok && m == 2
+//@   ensures[mar] is3(a,b,c,'m','a','r') ==> ok && m == 3
+//@   ensures[apr] is3(a,b,c,'a','p','r') ==> ok && m == 4
+//@   ensures[may] is3(a,b,c,'m','a','y') ==> ok && m == 5
+//@   ensures[jun] is3(a,b,c,'j','u','n') ==> ok && m == 6
+//@   ensures[jul] is3(a,b,c,'j','u','l') ==> ok && m == 7
+//@   ensures[aug] is3(a,b,c,'a','u','g') ==> ok && m == 8
+//@   ensures[sep] is3(a,b,c,'s','e','p') ==> ok && m == 9
+//@   ensures[oct] is3(a,b,c,'o','c','t') ==> ok && m == 10
+//@   ensures[nov] is3(a,b,c,'n','o','v') ==> ok && m == 11
+//@   ensures[dec] is3(a,b,c,'d','e','c') ==> ok && m == 12
+//@   ensures[only-months] ok ==> 1 <= m && m <= 12 && isalpha(a) && isalpha(b) && isalpha(c)
+//@   ensures[reject] !ok ==> m == 0
+
+//@ func parseIPv4Octet results octet parsed err
+//@   property C31
+//@   pure
+//@   ensures[accepts] err == nil ==> len(b) > 0 && alldigits(b, len(b)) && octet == decval(b, len(b)) && decval(b, len(b)) <= 255
+//@   ensures[rejects-empty] len(b) == 0 ==> err == errEmptyInt
+//@   ensures[rejects-nondigit] len(b) > 0 && !alldigits(b, len(b)) ==> err != nil
+//@   ensures[complete] len(b) > 0 && alldigits(b, len(b)) && err != nil ==> exists m in [1,len(b)]: decval(b, m) > 255
+//@   loop 1:
+//@     invariant[digits] alldigits(b, i)
+//@     invariant[value]  octet == decval(b, i) && 0 <= octet && octet <= 255 && parsed == octet
+
+// parseRFC1123DateGMT: accepts only the 29-byte shape "Www, DD Mon YYYY HH:MM:SS GMT" with in-range fields and
+// hands exactly the decoded fields to time.Date (agreement of time.Date with time.Parse is external).
+//@ func parseRFC1123DateGMT results t ok
+//@   property C31
+//@   mode skeleton
+//@   safety C31
+//@   ghost yr int = -1
+//@   ghost mo int = -1
+//@   ghost dy int = -1
+//@   ghost hh int = -1
+//@   ghost mi int = -1
+//@   ghost ss int = -1
+//@   ghost nanos int = -1
+//@   on call time.Date(y, m, d, h, mn, s, ns, loc):
+//@     nohavoc
+//@     requires[year]   y == (b[12]-48)*1000 + (b[13]-48)*100 + (b[14]-48)*10 + (b[15]-48) && isdigit(b[12]) && isdigit(b[13]) && isdigit(b[14]) && isdigit(b[15])
+//@     requires[day]    d == (b[5]-48)*10 + (b[6]-48) && isdigit(b[5]) && isdigit(b[6]) && 1 <= d && d <= 31
+//@     requires[month]  1 <= m && m <= 12
+//@     requires[hour]   h == (b[17]-48)*10 + (b[18]-48) && isdigit(b[17]) && isdigit(b[18]) && h <= 23
+//@     requires[minute] mn == (b[20]-48)*10 + (b[21]-48) && isdigit(b[20]) && isdigit(b[21]) && mn <= 59
+//@     requires[second] s == (b[23]-48)*10 + (b[24]-48) && isdigit(b[23]) && isdigit(b[24]) && s <= 59
+//@     requires[shape]  len(b) == 29 && b[3] == ',' && b[4] == ' ' && b[7] == ' ' && b[11] == ' ' && b[16] == ' ' && b[19] == ':' && b[22] == ':' &&
+//@                      b[25] == ' ' && b[26] == 'G' && b[27] == 'M' && b[28] == 'T' && ns == 0
+//@     effect yr = y
+//@   end
+//@   ensures[only-through-date] ok ==> yr >= 0
+
+// ParseIPv4: memory safety, termination, and the result shape; each field goes through parseIPv4Octet
+// (whose contract pins acceptance and value). The dot-splitting as a whole is not restated here.
+//@ func ParseIPv4 results r err
+//@   property C31
+//@   mode skeleton
+//@   safety C31
+//@   ghost octets int = 0
+//@   on call parseIPv4Octet -> o, p, e:
+//@     nohavoc
+//@     effect octets = octets + 1
+//@   on call net.IP.To4 -> x:
+//@     nohavoc
+//@     ensures len(x) == 4
+//@   end
+//@   loop 1:
+//@     invariant[fields-so-far] octets == _i && len(dst) == 4
+//@   ensures[four-fields] err == nil ==> octets == 4 && len(r) == 4
